@@ -193,6 +193,12 @@ impl RK23 {
                 break;
             }
 
+            // Step size underflow: the step no longer changes x (e.g. after repeated rejections)
+            if x + 0.1 * h == x {
+                status = Status::StepSizeTooSmall;
+                break;
+            }
+
             // Check for last step adjustment
             let mut last = false;
             if (x + h - xend) * posneg > 0.0 {
@@ -300,11 +306,16 @@ impl RK23 {
                     break;
                 }
             } else {
-                // Step rejected
+                // Step rejected (a NaN/inf error norm is a rejection too and must shrink the step)
                 steps.rejected += 1;
-                h *= (safety_factor * err.powf(error_exponent))
-                    .min(1.0)
-                    .max(scale_min);
+                let factor = if err.is_finite() {
+                    (safety_factor * err.powf(error_exponent))
+                        .min(1.0)
+                        .max(scale_min)
+                } else {
+                    scale_min
+                };
+                h *= factor;
             }
         }
 
